@@ -3,7 +3,12 @@
    and prints the resulting sexp on one line.  Syntax: hex numbers, #hex byte
    strings, ( ... ) lists.  All decoding of a case into model values and all
    model logic is extracted Gallina (Model); this file only tokenises. *)
-open Model
+type positive = Model.positive = XI of positive | XO of positive | XH
+type n = Model.n = N0 | Npos of positive
+type byte = Model.byte
+type sexp = Model.sexp = A of n | B of byte list | L of sexp list
+let byte_of_N_opt = Model.byte_of_N_opt
+let byte_to_N = Model.byte_to_N
 
 let byte_tab : byte array =
   Array.init 256 (fun i ->
